@@ -371,6 +371,12 @@ def differences(p, n, path='', out=None, binds=None):
         differences(p.right, n.right, path + '.right', out, binds)
         return out
     if isinstance(p, ast.BoolOp):
+        if Matcher().match(p, n, dict(binds)) is None:
+            pl, nl = _bool_leaves(p), _bool_leaves(n)
+            if len(pl) == len(nl) and len(pl) <= 5 and any(
+                    Matcher().match(list(pl), list(perm), dict(binds)) is not None for perm in itertools.permutations(nl)):
+                out.append(('and-or', p, n, path, 'boolean structure changed: expected `%s`, found `%s`' % (unparse(p), unparse(n))))
+                return out
         if type(p.op) is not type(n.op) and len(p.values) == len(n.values):
             if Matcher().match(ast.BoolOp(op=n.op, values=p.values), n, dict(binds)) is not None:
                 out.append(('and-or', p, n, path, '`%s` replaced by `%s`' % (unparse(p), unparse(n))))
@@ -442,6 +448,15 @@ def differences(p, n, path='', out=None, binds=None):
         elif pv != nv:
             out.append(('shape', p, n, path, 'expected `%s`, found `%s`' % (unparse(p), unparse(n))))
     return out
+
+
+def _bool_leaves(e):
+    if isinstance(e, ast.BoolOp):
+        out = []
+        for v in e.values:
+            out.extend(_bool_leaves(v))
+        return out
+    return [e]
 
 
 DEFINITE = {'literal', 'sign', 'negation', 'operator-dropped', 'operator-added', 'conjunct-dropped',
